@@ -44,10 +44,14 @@ def rand_problem(rng, cls, linear=False):
         c[4] = 0.0      # exact rationals double their size at every nonlinear stage: histories use a linear, time-dependent RHS
     if cls in IMPLICIT:
         c[2] = -abs(c[2]) - 0.5; c[3] = c[3] / 8               # damped and well conditioned at any CFL used here
+        c[0] = abs(c[0]) + 1.0; c[1] = abs(c[1])               # positive forcing: the state stays away from 0, where the relative
+        #                                                        Jacobian perturbation epsdiff*mean|q| degenerates (exact 0 vs 1e-17)
         if not linear:
             c[4] = dyadic(rng, -0.25, 0.25)
     w = [abs(dyadic(rng, 0.25, 1.0, 3)) + 0.25 for _ in range(n)]
     q0 = [dyadic(rng, -1.5, 1.5, 4) for _ in range(n)]
+    if cls in IMPLICIT:
+        q0 = [abs(x) + 0.5 for x in q0]
     return dict(cls=cls, n=n, c=c, w=w, q0=q0)
 
 
